@@ -189,3 +189,33 @@ class Report(object):
             print("  note: %s" % nt)
         sys.stdout.flush()
         return 1 if viol else 0
+
+
+def import_verdicts(prog, rep, dep_pid, rules, as_rule, why):
+    """A property that rests on an invariant another property establishes reports a change that breaks the invariant as well:
+    the rules `rules` of check `dep_pid` are run on the same program and every NEW violation (not one of dep_pid's recorded
+    findings) is lifted into this report under `as_rule`.  The sub-run is cached on the Program object."""
+    import importlib
+    cache = prog.__dict__.setdefault("_subreports", {})
+    if dep_pid not in cache:
+        sub = Report(dep_pid, rep.tier, rep.seed)
+        err = None
+        try:
+            importlib.import_module("odmlsa.checks.%s" % dep_pid.lower()).run(prog, sub)
+        except Exception as exc:           # the dependency stopped early: what it established so far still counts
+            err = exc
+        cache[dep_pid] = (sub, err)
+    sub, err = cache[dep_pid]
+    rep.rule(as_rule, "%s (rules %s of %s, run on the same tree; recorded findings of %s are not repeated here)" % (why, ", ".join(rules), dep_pid, dep_pid))
+    lifted = 0
+    for i in sub.items:
+        if i["status"] == "violation" and i["rule"] in rules:
+            lifted += 1
+            rep.fail(as_rule, "%s:%s" % (dep_pid, i["key"]), "[%s %s] %s" % (dep_pid, i["rule"], i.get("detail", "")), i.get("where", ""),
+                     witness=i.get("witness", ""))
+    if err is not None and not lifted:
+        from .model import AnalysisError
+        raise AnalysisError("%s (imported by %s) stopped: %s" % (dep_pid, rep.pid, str(err)[:160]))
+    if not lifted:
+        n = sum(1 for i in sub.items if i["rule"] in rules)
+        rep.ok(as_rule, "%s: %s hold" % (dep_pid, "/".join(rules)), "%d obligations of %s re-checked" % (n, dep_pid), "")
